@@ -742,7 +742,9 @@ func (c *Ctl) choose(o Options) (a *Arrival, idle bool, diverged bool) {
 		// a goroutine that keeps coming back to the same gate is spinning / polling on something a held goroutine owns:
 		// holding on would never end, so everybody is let go
 		key := pick.Role + "@" + pick.Pt
-		c.spinCnt[key]++
+		if !strings.HasPrefix(pick.Pt, "drv.") { // (the drivers' own scheduling points repeat by design)
+			c.spinCnt[key]++
+		}
 		if c.spinCnt[key] > 6 && len(c.held) > 0 {
 			c.spinCnt[key] = 0
 			for g := range c.held {
